@@ -490,6 +490,35 @@ pub fn test_merged(c: &MergedCase, ctx: &mut CaseCtx) -> Result<(), String> {
             ));
         }
     }
+    // fuzzy search with a small cap (1-3): whichever child lists it, the closest word is never
+    // displaced by a farther one, nothing farther than the cap-th closest word of the union is
+    // offered, and at most `cap` words are offered; both entry points
+    {
+        let bound = (c.query.chars().count() % 3) as u8 + 1;
+        let cap = 1 + (c.query.chars().count() + kids.len()) % 3;
+        let mut want: std::collections::BTreeSet<(String, u8)> = Default::default();
+        for k in &kids {
+            want.extend(k.fuzzy_match(&q, bound, 1000).into_iter().map(|r| (string(r.word), r.edit_distance)));
+        }
+        let mut dists: Vec<u8> = want.iter().map(|(_, d)| *d).collect();
+        dists.sort();
+        let per_child_hits = kids.iter().filter(|k| !k.fuzzy_match(&q, bound, 1000).is_empty()).count();
+        ctx.class_if(per_child_hits >= 2 && dists.len() > cap, "capped_fuzzy_search_with_hits_in_two_children_beyond_the_cap");
+        let slice: Vec<u8> = merged.fuzzy_match(&q, bound, cap).into_iter().map(|r| r.edit_distance).collect();
+        let strv: Vec<u8> = merged.fuzzy_match_str(&c.query, bound, cap).into_iter().map(|r| r.edit_distance).collect();
+        for (name, got) in [("fuzzy_match", &slice), ("fuzzy_match_str", &strv)] {
+            let bad = got.len() > cap
+                || got.is_empty() != dists.is_empty()
+                || got.iter().min() != dists.first()
+                || (dists.len() >= cap && got.iter().any(|d| *d > dists[cap - 1]));
+            if bad {
+                return Err(format!(
+                    "Merged{:?} {name}({:?}, {bound}, {cap}) offers distances {:?}; the words of its children within the bound lie at distances {:?}",
+                    c.children, c.query, got, dists
+                ));
+            }
+        }
+    }
     if merged.word_count() != kids.iter().map(|k| k.word_count()).sum::<usize>() {
         return Err("Merged word_count is not the sum of its parts".into());
     }
@@ -719,6 +748,7 @@ pub fn run(run: &mut Run) {
     run.require_class("merged_is_union", "dialect_restricted_in_one_child_free_in_another", (n / 100) as u64);
     run.require_class("merged_is_union", "other_capitalisation_only", (n / 50) as u64);
     run.require_class("merged_is_union", "fuzzy_union_with_case_variants", (n / 50) as u64);
+    run.require_class("merged_is_union", "capped_fuzzy_search_with_hits_in_two_children_beyond_the_cap", (n / 50) as u64);
 }
 
 pub fn replay(check: &str, case: Value, _run: &mut Run) -> Result<(), String> {
